@@ -54,7 +54,7 @@ class Result:
 
 _SAN_RE = re.compile(r'ERROR: (AddressSanitizer|ThreadSanitizer|LeakSanitizer|MemorySanitizer): ([A-Za-z0-9_-]+)')
 _UB_RE = re.compile(r'^(\S+?):(\d+):(\d+): runtime error: (.*)$', re.M)
-_FRAME_RE = re.compile(r'^\s*#\d+ 0x[0-9a-f]+ in (\S+) (\S+)', re.M)
+_FRAME_RE = re.compile(r'^\s*#\d+ (?:0x[0-9a-f]+ in )?(\S+) (\S+)', re.M)
 
 
 def _norm_ub(msg):
@@ -122,7 +122,7 @@ class Runner:
         except subprocess.TimeoutExpired as te:
             return None, (te.stdout or b'').decode(errors='replace') if isinstance(te.stdout, bytes) else (te.stdout or ''), ''
 
-    def run_range(self, res, exe, base_args, lo, hi, env=None, label=None, variant=None, max_crashes=25):
+    def run_range(self, res, exe, base_args, lo, hi, env=None, label=None, variant=None, max_crashes=25, wall=None):
         """run cases [lo,hi) in one process; on a crash attribute it to the case in the case file and resume after it"""
         casefile = os.path.join(self.tmp, 'case-%d-%d-%d' % (os.getpid(), threading.get_ident(), lo))
         ctx = {'exe_name': label, 'variant': variant, 'args': base_args, 'seed': self.seed, 'label': label, 'env': env or {}}
@@ -132,7 +132,7 @@ class Runner:
         while cur < hi:
             open(casefile, 'w').write('%-20d\n' % -1)
             args = base_args + ['--seed', str(self.seed), '--from', str(cur), '--to', str(hi)] + (['--thorough'] if self.thorough else [])
-            rc, out, err = self._one(exe, args, env, casefile)
+            rc, out, err = self._one(exe, args, env, casefile, wall)
             with res.lock:
                 res.procs += 1
                 for line in out.split('\n'):
@@ -148,7 +148,7 @@ class Runner:
                 case = -1
             if rc is None:
                 with res.lock:
-                    res.inconclusive.append({'case': case, 'why': 'wall-clock watchdog (%ds) hit; range %d..%d abandoned' % (self.wall_timeout, cur, hi), 'harness': label})
+                    res.inconclusive.append({'case': case, 'why': 'wall-clock watchdog (%ds) hit; range %d..%d abandoned' % (wall or self.wall_timeout, cur, hi), 'harness': label})
                 break
             if rc == 2:
                 raise build.BuildError('harness %s failed (exit 2): %s' % (label, err[-2000:]))
@@ -194,16 +194,16 @@ class Runner:
         except OSError:
             pass
 
-    def run_sharded(self, res, exe, base_args, ncases, env=None, label=None, variant=None, nshards=None, first=0, executor=None):
+    def run_sharded(self, res, exe, base_args, ncases, env=None, label=None, variant=None, nshards=None, first=0, executor=None, wall=None):
         """cases first..first+ncases split into contiguous shards run in parallel"""
         nshards = nshards or NPROC
         nshards = max(1, min(nshards, ncases))
         bounds = [first + ncases * i // nshards for i in range(nshards + 1)]
         jobs = [(bounds[i], bounds[i + 1]) for i in range(nshards) if bounds[i + 1] > bounds[i]]
         if executor is not None:
-            return [executor.submit(self.run_range, res, exe, base_args, lo, hi, env, label, variant) for lo, hi in jobs]
+            return [executor.submit(self.run_range, res, exe, base_args, lo, hi, env, label, variant, 25, wall) for lo, hi in jobs]
         with ThreadPoolExecutor(NPROC) as ex:
-            futs = [ex.submit(self.run_range, res, exe, base_args, lo, hi, env, label, variant) for lo, hi in jobs]
+            futs = [ex.submit(self.run_range, res, exe, base_args, lo, hi, env, label, variant, 25, wall) for lo, hi in jobs]
             for f in futs:
                 f.result()
 
